@@ -24,14 +24,19 @@ func c04Params(tier string) []*kvops.Params {
 		n, r, table int
 		entry       string
 	}
-	cfs := []cf{{3, 2, 1 << 16, "EO"}, {3, 2, 1 << 16, "EN"}, {3, 2, 1 << 16, "CC"}, {3, 3, 200, "EN"}}
+	cfs := []cf{{3, 2, 1 << 16, "EO"}, {3, 2, 1 << 16, "EN"}, {3, 2, 1 << 16, "CC"}, {3, 3, 200, "EN"}, {3, 2, 200, "EO"}}
 	if !quick {
 		depth = 5
 		alpha = append(alpha, ev("put", 0, 0, "EXAT"), ev("put", 0, 0, "XX+EX"), ev("unlock", 0, 1, ""), ev("compact", 0, 0, ""), ev("janitor", 0, 0, ""))
-		cfs = append(cfs, cf{3, 3, 1 << 16, "EO"}, cf{3, 3, 1 << 16, "CC"}, cf{3, 2, 200, "EO"}, cf{3, 2, 1 << 16, "RN"})
+		cfs = append(cfs, cf{3, 3, 1 << 16, "EO"}, cf{3, 3, 1 << 16, "CC"}, cf{3, 2, 200, "CC"}, cf{3, 2, 1 << 16, "RN"})
 	}
 	var out []*kvops.Params
 	for _, c := range cfs {
+		alpha := alpha
+		if c.table < 1024 {
+			// small tables: neighbours can be written so that the key's versions spread over tables
+			alpha = append(append([]clustermc.Ev{}, alpha...), ev("fill", 0, 0, ""))
+		}
 		p := &kvops.Params{
 			Name:  fmt.Sprintf("N=%d R=%d table=%d entry=%s", c.n, c.r, c.table, c.entry),
 			Opts:  simcluster.Opts{N: c.n, Replicas: c.r, WriteQ: 1, ReadQ: 1, Partitions: 7, TableSize: c.table},
